@@ -165,6 +165,10 @@ HIST_OPS = {
     "split_discard": _split_discard,
     "split_rejoin": _split_rejoin,
     "overwrite_abs_self": _overwrite_abs_self,
+    # comparisons of one representation with that of a copy (the dunder methods convert internally)
+    "q_rel_eq_copy": lambda s, c: s.rel == s.copy().rel,
+    "q_abs_eq_copy": lambda s, c: s.abs == s.copy().abs,
+    "q_seq_eq_copy": lambda s, c: s == s.copy(),
 }
 HIST_NAMES = list(HIST_OPS)
 # thorough tier: every history of three operations over the content-changing part of the alphabet
